@@ -122,9 +122,15 @@ func initKernel() {
 				duration = durationVal.AsInlineTimeSpan()
 			}
 
-			time.Sleep(duration.Native())
+			timer := time.NewTimer(duration.Native())
+			defer timer.Stop()
 
-			return value.Nil, value.Undefined
+			select {
+			case <-timer.C:
+				return value.Nil, value.Undefined
+			case <-vm.Aborter.Context().Done():
+				return value.Undefined, value.ExecutionAbortedError.ToValue()
+			}
 		},
 		DefWithParameters(1),
 	)
